@@ -131,7 +131,7 @@ LEVEL_TEXT = ("Coq theorems (all automata, no bounds): Union as built by re-inde
               "result state by the reported maps) decide exactly these clauses. Tie to the C++: libvata rebuilt from /repo runs the four operations on "
               "generated pairs and the extracted verified gates judge results, maps and untouched operands; structural equality with the models under "
               "the reported maps is reported as drift.")
-LEVEL_NOTE = ("The worklist algorithms and the copy-on-write store are modelled at result level only (rule sets under reported maps). Trusted: Coq kernel, "
+LEVEL_NOTE = ("The worklist algorithms and the copy-on-write store are modelled at result level only (rule sets under reported maps); of the worklists only the numbering of product states (fresh number = size of the translation map) is modelled algorithmically (C02_numbering_*). Trusted: Coq kernel, "
               "ExtrOcamlBasic extraction, OCaml/C++ glue, generators. No axioms (closed under the global context).")
 TECHNIQUE = "Coq proof of union/product models + verified language gates; extracted-model correspondence with reported translation maps"
 DESIGN_REF = "DESIGN.md 5/C02"
